@@ -30,12 +30,15 @@ LEVEL_TEXT = ("Proof, for every cell text, category table, chunking and validati
               "(stated over the literal table regenerated from the source), the validation-mode table of transform_int/float, "
               "fixed_string_transform keeps the first N bytes, parse_timestamp_bytes yields the UTC POSIX time of every accepted "
               "layout including written offsets, and all companion columns stay as long as the main column.")
-LEVEL_NOTE = ("The text-to-number parsers (Python int()/float(), numpy astype) and datetime.timestamp() are parameters of the "
-              "theorems (int() and CPython's day-number arithmetic are additionally modelled executably and compared); the model "
-              "is validated against the real importers by the differential run, not verified against the Python text. Theorems "
-              "are about the code with fixes D27 (C05), D28, D29, NC06a, NC06b, NC06c, NC06e, NC06f applied; NC06d (unmatched text in a "
-              "categorical column without free text is stored as 0) is recorded as found: the full-strength categorical theorem "
-              "covers it by stating the stored 0 explicitly, the property-level statement is `_partial` (cells that are keys).")
+LEVEL_NOTE = ("Parameters, not theorems: the text-to-number parsers (Python int()/float(), numpy astype; validation_mode_table holds "
+              "for every parser that rejects blank text) and datetime/timezone (CPython's _ymd2ord is mirrored and proved equal to "
+              "plain day counting; int() on bytes is modelled executably and compared exhaustively on short texts). The timestamp "
+              "theorem covers texts rendered with fixed-width decimals in the seven layouts; what parse_timestamp_bytes does with "
+              "other texts (unchecked separators) is only compared, not specified. The model is validated against the real importers "
+              "by the differential run, not verified against the Python text. Theorems are about the code with fixes D27 (C05), D28, "
+              "D29, NC06a, NC06b, NC06c, NC06e, NC06f applied. NC06d (text that is no category, in a categorical column without "
+              "free text, is stored as 0) is recorded as found: categorical_exact_match states the stored 0 outright, the "
+              "property-level statement is categorical_property_partial (every cell is a key), witness in Witness/C06.lean.")
 RULE = ("corpus (witnesses of D28, D29, NC06a-f) first; exhaustive: every byte string up to length 3 (quick) / 4 (thorough) over the "
         "bool literal alphabet {t,r,u,e,f,a,l,s,y,n,o,0,1,blank,x} plus all case variants of the accepted spellings, in the three "
         "modes; every subset (size <= 3) of the key pool {'', a, ab, b, ba, abc} against all pool members, strict prefixes/suffixes "
@@ -368,7 +371,7 @@ def rand_cats(rng, big):
 
 def random_cases(tier, rng):
     cases = []
-    count = 260 if tier == "quick" else 6000
+    count = 260 if tier == "quick" else 60000
     for t in range(count):
         n = 100000 + t
         kind = rng.choice(KINDS)
@@ -432,7 +435,7 @@ def random_cases(tier, rng):
             cells = [rand_date(rng) for _ in range(rows)]
             cases.append(mkcol("date", cells, rand_sizes(rng, rows), n, day=rng.random() < 0.6, flag=rng.random() < 0.6))
     # CSV level
-    ncsv = 40 if tier == "quick" else 600
+    ncsv = 40 if tier == "quick" else 5000
     for t in range(ncsv):
         cases.append(rand_csv(rng, 200000 + t))
     return cases
